@@ -387,3 +387,12 @@ Theorem filter_low_cutoff_clamped_refuted :
     filter_coeffs PI lit_1e4 lit_half lit_1p9 tan (lit_1e4 * fs) res (1 / fs) /\
     lit_1e4 * fs = 96 / 5 /\ fc = 10 /\ prewarp fc fs < prewarp (lit_1e4 * fs) fs.
 Proof. exact filter_low_cutoff_clamped_refuted. Qed.
+
+(** Same for the EQ filter: a 12 Hz bell requested at 192 kHz has the coefficients of a 19.2 Hz bell (F42). *)
+Theorem eq_low_frequency_clamped_refuted :
+  exists (kind : eqkind) (fc q gain fs : R),
+    0 < fs /\ 0 < fc /\ fc / fs < lit_1e4 /\
+    eq_coeffs PI lit_1e4 lit_half lit_minq tan (Rpower 10) kind fc q gain (1 / fs) =
+    eq_coeffs PI lit_1e4 lit_half lit_minq tan (Rpower 10) kind (lit_1e4 * fs) q gain (1 / fs) /\
+    lit_1e4 * fs = 96 / 5 /\ fc = 12.
+Proof. exact eq_low_frequency_clamped_refuted. Qed.
